@@ -400,7 +400,67 @@ def teardown(ctx):
                     ctx.count("cross_process_naive_datetime_ids")
 
 
+SWAPS = [("user-account", {}, ["user_id", "account_login", "account_type"]), ("software", {"name": "sw"}, ["vendor", "version", "cpe", "swid"]),
+         ("email-message", {"is_multipart": False}, ["subject", "body"]), ("windows-registry-key", {}, ["key"]), ("x509-certificate", {}, ["serial_number"]),
+         ("process", {"pid": 7}, ["command_line", "cwd"]), ("artifact", {"mime_type": "text/plain"}, ["payload_bin"])]
+HUGE = [10 ** 400, 2 ** 1024, -(2 ** 1024), 2 ** 1023 * 2 + 1, 10 ** 309]
+
+
+def wl_swaps(ctx, rng, i):
+    """The identifier comes from the NAMES and values of the contributing properties present -- nothing else, and nothing of what the
+    process computed before: equal values under different property names, one object after the other; and contributing numbers too
+    large for a double (refused, or at least never answered with a random identifier)."""
+    import stix2
+    fam = (stix2.exceptions.STIXError, ValueError, TypeError)
+    if i % 5 == 4:
+        n = HUGE[(i // 5) % len(HUGE)]
+        for t, o in (("autonomous-system", {"type": "autonomous-system", "spec_version": "2.1", "number": n}),
+                     ("file", {"type": "file", "spec_version": "2.1", "name": "f", "extensions": {UNREG_EXT: {"extension_type": "property-extension", "big": n}}})):
+            for route in ("constructor", "parse-dict"):
+                ctx.ev()
+                ctx.count("huge_contributing_numbers")
+                try:
+                    got = construct(o, route, rng)["id"]
+                except fam:
+                    ctx.count("huge_contributing_numbers_refused")
+                    continue
+                except Exception as e:
+                    ctx.count("huge_contributing_numbers_refused")       # (which exception: C17's subject)
+                    continue
+                if uuid.UUID(got.split("--", 1)[1]).version != 5:
+                    ctx.violation("random-id-although-contributing-values-present", "%s with a contributing number of %d digits via %s got %s: no UUIDv5 although contributing properties are present" % (
+                        t, len(str(abs(n))), route, got), {"type": t, "digits": len(str(abs(n))), "route": route, "got": got})
+        return
+    t, base, names = SWAPS[i % len(SWAPS)]
+    v = rng.choice(["admin", "svc", "1.0", "x", "AAAA", "0", "true"]) if t != "artifact" else "AAAA"
+    w = v + "2" if t != "artifact" else "BBBB"
+    variants = []
+    for a in names:
+        variants.append({a: v})
+    if len(names) > 1:
+        a, b = rng.sample(names, 2)
+        variants += [{a: v, b: w}, {a: w, b: v}, {b: v}, {a: v}]
+    rng.shuffle(variants)
+    for kv in variants + variants[:2]:
+        o = dict({"type": t, "spec_version": "2.1"}, **base)
+        o.update(kv)
+        exp, canon = expected_id(o)
+        ctx.ev()
+        try:
+            got = construct(o, rng.choice(["constructor", "parse-dict", "parse"]), rng)["id"]
+        except Exception as e:
+            ctx.skip("swap variant refused (%s)" % type(e).__name__)
+            continue
+        ctx.count("name_swap_ids")
+        ctx.nontrivial("swap", t, sorted(kv), v)
+        if exp is not None and got != exp:
+            ctx.violation("id-not-specification-exact:after-equal-values-under-other-names", "%s with %s: id %s, specification says %s (objects with the same values under other property names were made before it)" % (
+                t, kv, got, exp), {"input": o, "got": got, "expected": exp, "canonical_contributing_json": canon, "made_before": [list(x) for x in variants]})
+            return
+
+
 WORKLOADS = [
+    Workload("name-swaps-and-huge-numbers", wl_swaps, quick=140, thorough=7000),
     Workload("ids", wl_ids, quick=lambda: len(ALL_TYPES) * 40, thorough=lambda: len(ALL_TYPES) * 10000),
     __import__("stixmon.ambient", fromlist=["workload"]).workload("C06"),
 ]
@@ -411,6 +471,8 @@ def floors(m, tier):
     out = []
     if c.get("uuid5_checked", 0) < 400:
         out.append("fewer than 400 deterministic ids recomputed (%d)" % c.get("uuid5_checked", 0))
+    if c.get("name_swap_ids", 0) < 100:
+        out.append("fewer than 100 ids of objects with equal values under other property names checked")
     if c.get("uuid4_checked", 0) < 20:
         out.append("fallback (no contributing property) exercised fewer than 20 times")
     need = [t for t in ALL_TYPES if contrib_list(t)]
